@@ -740,6 +740,8 @@ def oracle_long(a, ires):
                 del ref[kk]
             exp, sig = [1], "remove_completed_entries"
         got = [3, 1] if ret[0] == 3 and ret[1] in (1, 2, 3) else ret
+        if kind == 1 and exp == [1] and got == [3, 1] and not 1 <= o[7] <= 8:
+            continue        # a report of no service-1 subservice for an unknown request id: "no result", or refused like for a known one
         if got != exp:
             return ("C16/PusVerificator/" + sig, "step %d of one tracker's history (%d telecommands registered so far, %d entries): call %s "
                     "returned %s, documented state machine: %s" % (j, regs, len(ref), o, ret, exp))
@@ -827,6 +829,10 @@ def oracle(case, ires, sres):
             exp_ret = [1]
         got_ret = [3, 1] if ret[0] == 3 and ret[1] in (1, 2, 3) else ret
         exp_d = [[kk] + ref[kk] for kk in order]
+        if kind == 1 and exp_ret == [1] and got_ret == [3, 1] and not 1 <= o[7] <= 8:
+            # a report of no service-1 subservice (outside 1..8) for an unknown request id: the unchanged tracker looks the
+            # id up first and answers "no result"; refusing the report with ValueError, as it does for a known id, is as good
+            exp_ret = [3, 1]
         if got_ret != exp_ret or d != exp_d:
             if kind == 1 and k not in before:
                 sig = "unknown-request-id"
@@ -868,6 +874,8 @@ def oracle(case, ires, sres):
             smap = {l[0]: l[2:] for l in s[i + 1:i + 1 + len(keys)] if l[1] == 1}
             i += 1 + len(keys)
             got_ret = [3, 1] if ret[0] == 3 and ret[1] in (1, 2, 3) else ret
+            if o and o[0] == 1 and sret == [1] and got_ret == [3, 1] and not 1 <= o[7] <= 8:
+                got_ret = [1]       # (see above: no service-1 subservice, unknown request id)
             if got_ret != sret or {l[0]: l[1:] for l in d} != smap:
                 return ("C16/PusVerificator/spec-tracker", "call %s: implementation %s %s, Spec.spec_step %s %s" % (o, ret, d, sret, smap))
     return None
